@@ -29,7 +29,7 @@ PROPS = {
             "note": "model fidelity is sampled on every run (simulated kernel: vsys shim); real sockets are not part of this check",
             "technique": _TECH},
         "lean": ["NbioVerif.Properties.C01"], "drivers": ["conndrv"], "harness": ["hconn"],
-        "runs": [_run(["n", "err", "ow", "cb", "deliv", "closed", "wire", "onclose"])],
+        "runs": [_run(["n", "err", "ow", "cb", "rc", "deliv", "closed", "wire", "onclose"])],
         "oracles": ["c01-"],
         "rule": "case = (stream type, epoll mode, bound, calls inside the open callback, op sequence with scripted kernel answers); distinct by "
                 "hash of (cell, per op: kind, error class, delivered event parts, queue length class, closed); non-trivial iff a backlog existed "
@@ -64,7 +64,7 @@ PROPS = {
             "note": "queued file ranges (Sendfile) are not held bytes and are not counted, as in the code",
             "technique": _TECH},
         "lean": ["NbioVerif.Properties.C17"], "drivers": ["conndrv"], "harness": ["hconn"],
-        "runs": [_run(["n", "err", "ow", "cb", "closed", "left", "wl"])],
+        "runs": [_run(["n", "err", "ow", "cb", "rc", "closed", "left", "wl"])],
         "oracles": ["c17-"],
         "rule": "same stream as C01 with bounds drawn around the running totals (left + n = bound - 1, bound, bound + 1) and fill/drain cycles; "
                 "non-trivial iff a backlog existed at some observation or a call returned an error",
